@@ -92,6 +92,7 @@ type Replay struct {
 }
 
 var noEvidence bool
+var selftestInfo map[string]any
 
 var (
 	verifDir = "/verif"
@@ -649,6 +650,25 @@ func runCheck(prop, tier string, base uint64, plan []planItem, runsOverride, nw 
 	wg.Wait()
 
 	infra = append(infra, ag.infra...)
+	// determinism self-test on this property's scenarios (same binary, same tree): every
+	// seed in five process/GOMAXPROCS modes must give the same journal hash and verdict
+	if workerPlain != "" && len(infra) == 0 && os.Getenv("VCHECK_NO_SELFTEST") == "" {
+		var items []planItem
+		for _, it := range plan {
+			if !it.Race && (onlyScen == "" || it.Scenario == onlyScen) {
+				items = append(items, it)
+			}
+		}
+		n := 6
+		if tier == "thorough" {
+			n = 40
+		}
+		pairs, bad := selftestItems(workerPlain, items, prop, base+17, n, nw, false)
+		selftestInfo = map[string]any{"seeds_per_scenario": n, "pairs": pairs, "modes": []string{"batch worker GOMAXPROCS=1", "batch worker GOMAXPROCS=4", "batch worker GOMAXPROCS=16", "fresh process per seed GOMAXPROCS=16", "fresh process per seed GOMAXPROCS=1"}, "mismatches": bad}
+		if bad > 0 {
+			infra = append(infra, fmt.Sprintf("determinism self-test: %d mismatches over %d (scenario, seed) pairs", bad, pairs))
+		}
+	}
 	return report(prop, tier, base, t0, ag, infra, total, workerPlain, workerRace, plan, noShrink, genInfo)
 }
 
@@ -1015,6 +1035,9 @@ func writeEvidence(prop, tier string, base uint64, evals, reach, distinct int, s
 		"other_oracles":       foreign,
 		"generator":           genInfo,
 	}
+	if selftestInfo != nil {
+		cov["determinism_selftest"] = selftestInfo
+	}
 	ev := map[string]any{
 		"property_id": prop,
 		"tier":        tier,
@@ -1062,69 +1085,8 @@ func doSelftest(prop, scen string, base uint64, runs, nw int) int {
 			}
 		}
 	}
-	bad := 0
-	type key struct {
-		scen string
-		seed uint64
-	}
-	var mu sync.Mutex
-	ref := map[key]string{}
-	var wg sync.WaitGroup
-	sem := make(chan struct{}, nw)
-	for _, it := range items {
-		var seeds []uint64
-		for j := 0; j < runs; j++ {
-			seeds = append(seeds, base*7919+uint64(j))
-		}
-		for _, mode := range []string{"batch:1", "batch:4", "batch:16", "single:16", "single:1"} {
-			it, mode := it, mode
-			parts := strings.Split(mode, ":")
-			var jobs [][]uint64
-			if parts[0] == "batch" {
-				jobs = [][]uint64{seeds}
-			} else {
-				for _, s := range seeds {
-					jobs = append(jobs, []uint64{s})
-				}
-			}
-			for _, js := range jobs {
-				js := js
-				wg.Add(1)
-				sem <- struct{}{}
-				go func() {
-					defer wg.Done()
-					defer func() { <-sem }()
-					job := &Job{Prop: prop, Scenario: it.Scenario, Tier: "quick", Seeds: js, Args: it.Args}
-					res, crash, st, err := runWorkerEnv(worker, job, "GOMAXPROCS="+parts[1])
-					mu.Lock()
-					defer mu.Unlock()
-					if err != nil || crash != nil {
-						fmt.Printf("selftest: %s mode=%s: worker trouble: %v %v\n%s\n", it.Scenario, mode, err, crash, tailStr(st, 1500))
-						bad++
-						return
-					}
-					for _, r := range res {
-						k := key{it.Scenario + fmt.Sprint(it.Args), r.Seed}
-						v := r.Journal
-						if r.Violation != nil {
-							v += "!" + r.Violation.Oracle + "/" + r.Violation.Sig
-						}
-						if r.Infra != "" {
-							v += "?infra"
-						}
-						if prev, ok := ref[k]; ok && prev != v {
-							fmt.Printf("selftest: NONDETERMINISM %s seed=%d mode=%s: %s vs %s\n", it.Scenario, r.Seed, mode, prev, v)
-							bad++
-						} else {
-							ref[k] = v
-						}
-					}
-				}()
-			}
-		}
-	}
-	wg.Wait()
-	fmt.Printf("selftest: %d (scenario,seed) pairs compared across 5 process/GOMAXPROCS modes, mismatches=%d\n", len(ref), bad)
+	pairs, bad := selftestItems(worker, items, prop, base, runs, nw, false)
+	fmt.Printf("selftest: %d (scenario,seed) pairs compared across 5 process/GOMAXPROCS modes, mismatches=%d\n", pairs, bad)
 	cleanup()
 	if bad > 0 {
 		return 2
@@ -1178,4 +1140,74 @@ func runWorkerEnv(worker string, job *Job, extra string) ([]*Result, *Result, st
 		return results, nil, stderr.String(), fmt.Errorf("worker failed: %v", err)
 	}
 	return results, nil, stderr.String(), nil
+}
+
+// selftestItems runs every seed of every item in five process modes and compares journal
+// hash + verdict.  It returns the number of (scenario, seed) pairs and of mismatches.
+func selftestItems(worker string, items []planItem, prop string, base uint64, runs, nw int, quiet bool) (int, int) {
+	bad := 0
+	type key struct {
+		scen string
+		seed uint64
+	}
+	var mu sync.Mutex
+	ref := map[key]string{}
+	var wg sync.WaitGroup
+	sem := make(chan struct{}, nw)
+	for _, it := range items {
+		var seeds []uint64
+		for j := 0; j < runs; j++ {
+			seeds = append(seeds, base*7919+uint64(j))
+		}
+		for _, mode := range []string{"batch:1", "batch:4", "batch:16", "single:16", "single:1"} {
+			it, mode := it, mode
+			parts := strings.Split(mode, ":")
+			var jobs [][]uint64
+			if parts[0] == "batch" {
+				jobs = [][]uint64{seeds}
+			} else {
+				for _, s := range seeds {
+					jobs = append(jobs, []uint64{s})
+				}
+			}
+			for _, js := range jobs {
+				js := js
+				wg.Add(1)
+				sem <- struct{}{}
+				go func() {
+					defer wg.Done()
+					defer func() { <-sem }()
+					job := &Job{Prop: prop, Scenario: it.Scenario, Tier: "quick", Seeds: js, Args: it.Args}
+					res, crash, st, err := runWorkerEnv(worker, job, "GOMAXPROCS="+parts[1])
+					mu.Lock()
+					defer mu.Unlock()
+					if err != nil || crash != nil {
+						if !quiet {
+							fmt.Printf("selftest: %s mode=%s: worker trouble: %v %v\n%s\n", it.Scenario, mode, err, crash, tailStr(st, 1500))
+						}
+						bad++
+						return
+					}
+					for _, r := range res {
+						k := key{it.Scenario + fmt.Sprint(it.Args), r.Seed}
+						v := r.Journal
+						if r.Violation != nil {
+							v += "!" + r.Violation.Oracle + "/" + r.Violation.Sig
+						}
+						if r.Infra != "" {
+							v += "?infra"
+						}
+						if prev, ok := ref[k]; ok && prev != v {
+							fmt.Printf("selftest: NONDETERMINISM %s seed=%d mode=%s: %s vs %s\n", it.Scenario, r.Seed, mode, prev, v)
+							bad++
+						} else {
+							ref[k] = v
+						}
+					}
+				}()
+			}
+		}
+	}
+	wg.Wait()
+	return len(ref), bad
 }
